@@ -37,7 +37,7 @@ def shapes(i):
 def scripts(tier):
     names = list(shapes(0))
     out = []
-    maxlen = 3
+    maxlen = 4 if tier == "thorough" else 3
     for n in range(1, maxlen + 1):
         for combo in itertools.product(names, repeat=n):
             out.append([("chunk", c) for c in combo])
@@ -106,7 +106,7 @@ def run(check, repo, tier):
                         if isinstance(x, BSeg):
                             I_.positive_syms.add(f"len({x.name})")
             lines = []
-            for _k in range(4 * len(concrete) + 6):
+            for _k in range(4 * len(concrete) + 8):
                 r = W.call_method(I_, "dev", "_readline_socket", ())
                 lines.append(r)
                 if isinstance(r, Const) and r.v is None:
@@ -157,7 +157,7 @@ def run(check, repo, tier):
                 check.ok("R3", f"[{label}]")
     check.floor(n_scripts >= 50 and n_paths >= n_scripts, f"C17: {n_scripts} scripts / {n_paths} paths")
     check.analysed = {"program": P.stats(), "fragmentation_scripts": n_scripts, "abstract_paths": n_paths,
-                      "alphabet": list(shapes(0)), "max_chunks": 3}
+                      "alphabet": list(shapes(0)), "max_chunks": 4 if tier == "thorough" else 3}
     check.sample({"script": "a|b , c , <no data> , |d", "received": "a \\n b c \\n d", "expected_lines": ["a\\n", "bc\\n", "d (tail at end-of-stream)"]})
     check.coverage["exhaustive"] = False
     check.explanation = (
